@@ -33,6 +33,20 @@ def certOf : String → ClientCert
   | "selfsigned" => { verified := false, leafCN := "client" }
   | _ => { verified := false, leafCN := "" }       -- no certificate at all
 
+/-- which CA issued the chain of a client credential (`main` = the CA of the initial configuration) -/
+def issuerOf : String → String
+  | "foreign" => "foreign"
+  | "selfsigned" => "self"
+  | "none" => "-"
+  | _ => "main"
+
+/-- the credential as the handshake sees it when the listener trusts `ca`: the verdict `verified` is relative to the CA
+in force (`certOf` is the case `ca = main`); after a CA rotation the chains of the retired CA no longer verify and
+those of the new one do -/
+def certIn (ca : String) (name : String) : ClientCert :=
+  if ca == "main" then certOf name
+  else { certOf name with verified := issuerOf name == ca && name != "expired" }
+
 /-- **The certificate gate**: a TLS client is served iff its handshake verified and, when a common-name
 rule is configured, its own (leaf) certificate carries that name. -/
 def tlsServed (cfg : LifeCfg) (c : ClientCert) : Bool :=
@@ -44,6 +58,10 @@ structure LifeSt where
   conns : List (String × Bool) := []
   /-- handler calls made so far -/
   calls : Nat := 0
+  /-- the CA the TLS listener trusts (fixed when the listener's TLS configuration is built, at Start) -/
+  ca : String := "main"
+  /-- the CA in the configuration (`SetTLSCaCertFile`); read by the next Start -/
+  cfgCa : String := "main"
 deriving Repr, Inhabited
 
 def LifeSt.has (s : LifeSt) (id : String) : Bool := s.conns.any fun c => c.1 == id
@@ -59,6 +77,7 @@ inductive LifeAct where
   | start | stop | restart
   | stopstorm                               -- Stop while clients keep connecting
   | setpw (pw : String)                     -- the application changes the required password (effective at the next Start)
+  | setca (ca : String)                     -- the application replaces the CA certificate file (effective at the next Start)
   | pingold (tls : Bool)                    -- a client presenting the previous password
   | ping (tls : Bool) (cert : String)       -- connect, one session, disconnect
   | open_ (tls : Bool) (id : String)        -- connect, one session, stay connected
@@ -80,26 +99,27 @@ def LifeCfg.up (cfg : LifeCfg) (s : LifeSt) (tls : Bool) : Bool := s.running && 
 
 /-- one action: the result token and the next state -/
 def lifeStepA (cfg : LifeCfg) (s : LifeSt) : LifeAct → String × LifeSt
-  | .start => if s.running then ("err", s) else ("ok", { s with running := true })
+  | .start => if s.running then ("err", s) else ("ok", { s with running := true, ca := s.cfgCa })
   | .stop => ("ok", { s with running := false, conns := [] })
   | .stopstorm => ("ok", { s with running := false, conns := [] })
   | .setpw _ => ("ok", s)
+  | .setca ca => ("ok", { s with cfgCa := ca })
   -- after a restart exactly the new password is accepted: the previous one is refused, nothing is executed
   | .pingold tls => if !cfg.up s tls then ("refused", s) else ("auth-E", s)
-  | .restart => ("ok", { s with running := true, conns := [] })
+  | .restart => ("ok", { s with running := true, conns := [], ca := s.cfgCa })
   | .ping tls cert =>
     if !cfg.up s tls then ("refused", s) else
     if !tls then
       let r := plainSession cfg
       (r, if r == "ok" then { s with calls := s.calls + 1 } else s)
-    else if tlsServed cfg (certOf cert) then ("ok", { s with calls := s.calls + 1 })
+    else if tlsServed cfg (certIn s.ca cert) then ("ok", { s with calls := s.calls + 1 })
     else ("rejected", s)
   | .open_ tls id =>
     if !cfg.up s tls then ("refused", s) else
     if !tls then
       let r := plainSession cfg
       (r, if r == "ok" then { s with calls := s.calls + 1, conns := s.conns ++ [(id, false)] } else s)
-    else if tlsServed cfg (certOf "good") then ("ok", { s with calls := s.calls + 1, conns := s.conns ++ [(id, false)] })
+    else if tlsServed cfg (certIn s.ca "good") then ("ok", { s with calls := s.calls + 1, conns := s.conns ++ [(id, false)] })
     else ("rejected", s)
   | .cclose id => ("ok", s.drop id)
   | .rst id => ("ok", s.drop id)
@@ -116,7 +136,7 @@ def lifeStepA (cfg : LifeCfg) (s : LifeSt) : LifeAct → String × LifeSt
     if !cfg.up s true then ("refused", s) else
     if kind == "stall" then ("pending", { s with conns := s.conns ++ [(id, true)] })
     else if kind == "plaintext" || kind == "garbage" || kind == "abort" then ("rejected", s)
-    else if tlsServed cfg (certOf kind) then ("served:ok", { s with calls := s.calls + 1 })
+    else if tlsServed cfg (certIn s.ca kind) then ("served:ok", { s with calls := s.calls + 1 })
     else ("rejected", s)
   | .portoff _ => ("ok", s)
   | .porton _ => ("ok", s)
@@ -132,6 +152,7 @@ def parseLifeAct (action : String) : Option LifeAct :=
   | ["stop"] => some .stop
   | ["stopstorm"] => some .stopstorm
   | ["setpw", pw] => some (.setpw pw)
+  | ["setca", ca] => some (.setca ca)
   | ["pingold", k] => some (.pingold (k == "t"))
   | ["restart"] => some .restart
   | "ping" :: k :: rest => some (.ping (k == "t") (rest.headD "good"))
